@@ -477,3 +477,94 @@ example : (defaultBucket id "ns".toList ((List.replicate 46 'a') ++ "-b".toList)
     "kafscale-etcd-ns-".toList ++ List.replicate 46 'a' := by decide
 
 end KafVerif.OpBucket
+
+/-! ## Part C — the published host vs the deployed Service, for names of ANY length (follow-up r3)
+
+`<name>-broker-headless` is 16 characters longer than the cluster name, so it stops being a valid
+DNS label (63) for names longer than 47.  The code as it is does NOT shorten anything — neither in
+`brokerHeadlessServiceName` nor in `BuildClusterMetadata` — and that is exactly what keeps the two
+sites in agreement.  A change that shortens one site only breaks the stable-address property for
+every name longer than 47 and for no shorter name (`cut_service_*` below). -/
+namespace KafVerif.OpSnapshot
+open KafVerif.GoStr
+open KafVerif.OpBucket (trimRightBy trimRightBy_prefix)
+
+theorem s_headless_eq : s_headless = "-broker-headless".toList := by decide
+theorem s_brokerSfx_eq : s_brokerSfx = "-broker".toList := by decide
+
+/-- **No truncation, whatever the length**: the deployed StatefulSet / Service names are the cluster
+name followed by a fixed suffix; the name is a prefix, the length grows by exactly 7 / 16. -/
+theorem _root_.KafVerif.C39.headless_name_any_length (c : ClusterSpec) :
+    headlessName c = c.name ++ "-broker-headless".toList ∧ stsName c = c.name ++ "-broker".toList ∧
+    (headlessName c).length = c.name.length + 16 ∧ (stsName c).length = c.name.length + 7 ∧
+    c.name <+: headlessName c ∧ c.name <+: stsName c := by
+  refine ⟨by rw [headlessName, s_headless_eq], by rw [stsName, s_brokerSfx_eq], ?_, ?_, ?_, ?_⟩
+  · simp [headlessName, s_headless, s_brokerSfx]
+  · simp [stsName, s_brokerSfx]
+  · exact List.prefix_append _ _
+  · exact List.prefix_append _ _
+
+/-- **The service label of the published host is the deployed `serviceName` — and nothing else.**
+For every spec (name of any length, any characters) and every candidate service name `svc`: the
+host `BuildClusterMetadata` publishes for pod `i` is the pod's DNS name under `svc` iff `svc` is
+literally `brokerHeadlessServiceName(cluster)`. -/
+theorem _root_.KafVerif.C39.published_host_service_is_deployed_service (c : ClusterSpec) (i : Nat) (svc : List Char) :
+    podHost c i = k8sPodDNS (stsName c) i svc c.namespace_ ↔ svc = headlessName c := by
+  rw [KafVerif.C39.pod_host_is_statefulset_dns]
+  constructor
+  · intro h
+    simp only [k8sPodDNS] at h
+    have h1 := List.append_cancel_right h
+    have h2 := List.append_cancel_right h1
+    have h3 := List.append_cancel_right h2
+    exact (List.append_cancel_left h3).symm
+  · rintro rfl; rfl
+
+/-- every broker of a CRD-valid multi-replica (or host-less) cluster is published under the deployed Service -/
+theorem _root_.KafVerif.C39.brokers_published_under_deployed_service (c : ClusterSpec) (r : Nat) (topics : List TopicSpec)
+    (h : CrdValid c r topics) (hm : 1 < r ∨ trimSpace c.advertisedHost = []) :
+    ∃ md, build c topics = .ok md ∧ md.brokers.length = r ∧ r = (stsReplicas c).toNat ∧
+      ∀ i (hi : i < md.brokers.length),
+        md.brokers[i].host = k8sPodDNS (stsName c) i (headlessName c) c.namespace_ := by
+  obtain ⟨md, hb, hl, hh⟩ := KafVerif.C39.brokers_match c r topics h
+  refine ⟨md, hb, hl, by simp [stsReplicas, h.1], fun i hi => ?_⟩
+  rw [← KafVerif.C39.pod_host_is_statefulset_dns]
+  exact (hh i hi).2.2.2 hm
+
+/-- residual of the code as it is: the Service name is a DNS label (≤ 63) exactly for names of at most 47 characters -/
+theorem _root_.KafVerif.C39.headless_label_fits_iff (c : ClusterSpec) :
+    (headlessName c).length ≤ 63 ↔ c.name.length ≤ 47 := by
+  rw [(KafVerif.C39.headless_name_any_length c).2.2.1]; omega
+
+/-- The one-sided shortening (seeded change C39-r3-1): `name[:47]`, `TrimRight "-."`, then the suffix
+(runes for bytes: cluster names are ASCII). -/
+def headlessNameCut (c : ClusterSpec) : List Char :=
+  (if 47 < c.name.length then trimRightBy (fun ch => ch == '-' || ch == '.') (c.name.take 47) else c.name) ++ s_headless
+
+/-- short names cannot tell the difference … -/
+theorem _root_.KafVerif.C39.cut_service_same_for_short_names (c : ClusterSpec) (h : c.name.length ≤ 47) :
+    headlessNameCut c = headlessName c := by
+  simp [headlessNameCut, headlessName, Nat.not_lt.mpr h]
+
+/-- … and EVERY longer name does: with the shortened Service no published host is a pod address. -/
+theorem _root_.KafVerif.C39.cut_service_breaks_every_long_name (c : ClusterSpec) (h : 47 < c.name.length) (i : Nat) :
+    podHost c i ≠ k8sPodDNS (stsName c) i (headlessNameCut c) c.namespace_ := by
+  intro heq
+  have hc := (KafVerif.C39.published_host_service_is_deployed_service c i _).mp heq
+  have hl := congrArg List.length hc
+  have hp := (trimRightBy_prefix (fun ch => ch == '-' || ch == '.') (c.name.take 47)).length_le
+  simp only [headlessNameCut, headlessName, h, if_true, List.length_append, List.length_take] at hl hp
+  omega
+
+/-! non-vacuity with a 52-character name (Service name of 68 characters) -/
+def exLong : ClusterSpec :=
+  { name := List.replicate 46 'a' ++ "-bbbbb".toList, namespace_ := "ns".toList, replicas := some 3, advertisedHost := [], advertisedPort := none }
+example : exLong.name.length = 52 ∧ (headlessName exLong).length = 68 := by decide
+example : CrdValid exLong 3 [] := ⟨rfl, by decide, by decide⟩
+set_option maxRecDepth 8000 in
+example : podHost exLong 2 = (List.replicate 46 'a' ++ "-bbbbb-broker-2.".toList ++ List.replicate 46 'a' ++
+    "-bbbbb-broker-headless.ns.svc.cluster.local".toList) := by decide
+example : headlessNameCut exLong = List.replicate 46 'a' ++ "-broker-headless".toList := by decide
+example : (headlessNameCut exLong).length = 62 := by decide
+
+end KafVerif.OpSnapshot
